@@ -381,6 +381,45 @@ def check_seek_protocols(ctx, F):
             ctx.ok('R1', role, s.defpath, 'snapshot %s' % sym.show(snapshot)[:160], key=key)
 
 
+def check_seek_refusals(ctx, F):
+    """A coder's seek refuses only what its backend (or the window reader) refuses.  pos() can report *every* reachable
+    state -- also a head that is not yet filled above an empty bulk, or the empty coder -- so a refusal the coder decides
+    from the snapshot alone turns away snapshots that pos() hands out.  Rule: on every Err exit of a coder's Seek::seek,
+    the decision depends on the answer of a callee (a `?`/match on the backend's seek or on the reader)."""
+    n = 0
+    for b in F.bodies:
+        if b.promoted is not None or b.name != 'seek' or b.impl_trait != 'Seek' or not (b.self_adt or '').startswith(('stream::', 'symbol::')) or '::tests::' in b.defpath:
+            continue
+        n += 1
+        ctx.touch(b)
+        ev, paths = rules.evaluate(b)
+        key = 'R2/seek-refusals/' + b.defpath
+        role = 'seek refuses only what a callee refuses'
+        if paths is None:
+            ctx.unresolved('R2', role, b.defpath, 'too many paths', key=key)
+            continue
+        bad = None
+        n_err = 0
+        is_call = lambda x: isinstance(x, tuple) and x and x[0] == 'call' and x[3] is not None
+        for r in paths:
+            if r.end == 'diverge' and not any(e['kind'] == 'branch' and sym.contains(e['term'], is_call) for e in r.events):
+                # a panic decided from the snapshot alone
+                if any(e['kind'] == 'branch' for e in r.events):
+                    bad = bad or 'seek panics on a condition computed from the snapshot alone'
+                continue
+            if r.end != 'return' or rules.ret_shape(r.ret)[0] != 'Err':
+                continue
+            n_err += 1
+            if not any(e['kind'] == 'branch' and sym.contains(e['term'], is_call) for e in r.events):
+                conds = [sym.show(e['term'])[:70] for e in r.events if e['kind'] == 'branch']
+                bad = 'an Err exit is decided from the snapshot alone (%s): snapshots that pos() reports -- e.g. a partially filled head at position 0 -- are refused' % '; '.join(conds)
+        if bad:
+            ctx.bad('R2', role, b.defpath, bad, key=key, loc=rules.loc(b))
+        else:
+            ctx.ok('R2', role, b.defpath, '%d error exit(s), each behind a callee\'s answer' % n_err, key=key)
+    ctx.floor('R2', 'coder Seek impls examined for own refusals', 'stream', n, 3, '%d coder Seek impls' % n, 'R2/floor/seek-refusals', public=True)
+
+
 def simplify_partial(t):
     """partial(base, overrides) where every override re-stores the base's own projection is just base."""
     if t[0] == 'partial' and t[1][0] == 'in':
@@ -455,6 +494,7 @@ def run(ctx):
     F = ctx.F
     check_held_back(ctx, F)
     check_seek_protocols(ctx, F)
+    check_seek_refusals(ctx, F)
     c17.check_seek(ctx, F)
     check_pure_snapshots(ctx, F)
     ctx.assume('a backend write appends one word, a backend read consumes one word (C17 for the provided backends)')
